@@ -461,3 +461,397 @@ def run(R: vlib.Run):
     R.extra_cov["correspondence_model_mismatches"] = nbad
     R.extra_cov["oracle_vs_gallina_spec_mismatches"] = nspec
     return R
+
+
+# =========================================================================================================
+# at-scale search
+# =========================================================================================================
+SC_K = 4.148808e3       # dispersion constant of the restated law (only for the float64 cross-check of the shifts)
+SC_SHIFT_CAP = 1 << 29  # |shift| asked for never exceeds this: differences of two int32 shifts stay inside int32
+SC_SEED = 1717
+
+
+def _sc_cube(kind, shape, seedseq):
+    """generator of the folded cube of a scale world: `kind` x shape x numpy.random.default_rng(seedseq)
+    bits: random 32-bit patterns read as float32 (infinities, NaNs, denormals, -0.0 among them: updates must move bits, not values)
+    int: integers in [-2**24, 2**24];  extreme: a palette of float32 limits mixed with values of magnitude 1e37"""
+    g = np.random.default_rng(seedseq)
+    n = int(np.prod(shape))
+    if kind == "bits":
+        x = g.integers(0, 1 << 32, n, dtype=np.uint32).view(np.float32)
+    elif kind == "int":
+        x = g.integers(-(1 << 24), (1 << 24) + 1, n, dtype=np.int32).astype(np.float32)
+    elif kind == "extreme":
+        fi = np.finfo(np.float32)
+        pal = np.array([fi.max, -fi.max, fi.tiny, -fi.tiny, fi.smallest_subnormal, -fi.smallest_subnormal, 0.0, -0.0, 2.0 ** 24, 2.0 ** 24 - 1,
+                        -(2.0 ** 24), 1.0, np.inf, -np.inf, 65504.0, 1 + fi.eps], dtype=np.float32)
+        x = pal[g.integers(0, len(pal), n, dtype=np.uint8)]
+        m = g.integers(0, 2, n, dtype=np.uint8).astype(bool)
+        x[m] = (g.standard_normal(int(m.sum()), dtype=np.float32) * np.float32(3e37))
+    else:
+        raise ValueError(kind)
+    return x.reshape(shape)
+
+
+class ScaleWorld(World):
+    """a world whose cube is far too large to print: described by the arguments of its generator (_sc_cube)"""
+
+    def __init__(self, name, hdrp, shape, dm0, p0, kind, seedseq):
+        super().__init__(name, hdrp, shape, dm0, p0, _sc_cube(kind, shape, seedseq), [], [])
+        self.kind, self.seedseq = kind, [int(s) for s in seedseq]
+
+    def describe(self):
+        return {"world": self.name, "header": self.hdrp, "shape": list(self.shape), "dm_fold": self.dm0, "period_fold": self.p0,
+                "cube0": f"props/c17.py _sc_cube({self.kind!r}, {list(self.shape)}, {self.seedseq})"}
+
+
+def _sc_units(hdrp, shape, p0):
+    """(DM difference that drifts the last sub-band by one turn, period difference that drifts the last sub-integration by one turn)"""
+    ni, nb, _nbin = shape
+    f_last = hdrp["fch1"] + (nb - 1) * (hdrp["foff"] * hdrp["nchans"] / nb)
+    span = abs(SC_K * (f_last ** -2 - hdrp["fch1"] ** -2))
+    dm_unit = p0 / span if span > 0 else 1.0
+    p_unit = p0 * p0 / (hdrp["tsamp"] * hdrp["nsamples"]) * (ni / (ni - 1) if ni > 1 else 1.0)
+    return dm_unit, p_unit
+
+
+def _sc_turns(nbin, t24=True):
+    """numbers of turns whose shift in bins crosses 2**7/2**8, 2**15, 2**16 and 2**24 (narrow accumulators, float32 exactness)"""
+    t = [0.37, -0.21, 1.6, -2.3]
+    for lim, f in ((1 << 8, 0.61), (1 << 8, 1.37), (1 << 16, 0.61), (1 << 16, 1.37)) + (((1 << 24, 1.37),) if t24 else ()):
+        v = f * lim / nbin
+        if 2.3 < v and v * nbin < SC_SHIFT_CAP:
+            t += [v, -v]
+    return t
+
+
+def _sc_targets(W, t24=True):
+    """alphabets of DM and period targets of a scale world (folding values first); DMs stay >= 0 and periods >= p0/4"""
+    du, pu = _sc_units(W.hdrp, W.shape, W.p0)
+    ts = _sc_turns(W.shape[2], t24)
+    dms = [W.dm0] + [W.dm0 + t * du for t in ts if W.dm0 + t * du >= 0]
+    ps = [W.p0] + [W.p0 + t * pu for t in ts if W.p0 + t * pu >= W.p0 / 4]
+    return dms, ps
+
+
+def _sc_rot(cube0, tot):
+    """out[i, b, k] = cube0[i, b, (k + tot[i, b]) mod nbin] (= np.roll(profile, -tot)); slices or a gather in int64, never np.roll"""
+    ni, nb, nbin = cube0.shape
+    s = np.mod(np.asarray(tot, dtype=np.int64), nbin)
+    if ni * nb <= 64:
+        out = np.empty_like(cube0)
+        for i in range(ni):
+            for b in range(nb):
+                k = int(s[i, b])
+                out[i, b, :nbin - k] = cube0[i, b, k:]
+                out[i, b, nbin - k:] = cube0[i, b, :k]
+        return out
+    idx = (np.arange(nbin, dtype=np.int64)[None, None, :] + s[:, :, None]) % nbin
+    return np.take_along_axis(cube0, idx, axis=2)
+
+
+def _sc_biteq(a, b):
+    return a.shape == b.shape and a.dtype == b.dtype == np.float32 and np.array_equal(np.ascontiguousarray(a).view(np.uint32), b.view(np.uint32))
+
+
+class ScaleOracle:
+    def __init__(self, R):
+        self.R = R
+        self.count = {}
+        self.maxerr = {"dm": 0.0, "period": 0.0}     # float64 cross-checks: largest share of the slack beyond the final rounding that was used
+
+    def fail(self, key, what, case):
+        self.count[key] = self.count.get(key, 0) + 1
+        if self.count[key] <= MAX_PER_KEY:
+            self.R.fail(key, what, case)
+
+    # ---- the shift law: the small-scope definitions (dm_table_value / dbins_of / p_table_value) on whole arrays ----
+    def dm_shifts(self, W, d, case):
+        from sigpyproc import params
+        _ni, nb, nbin = W.shape
+        delta = d - W.dm0
+        if delta == 0:
+            return np.zeros(nb, dtype=np.int64)
+        h = W.hdr
+        chan_width = h.foff * h.nchans / nb
+        freqs = np.arange(nb, dtype=np.float64) * chan_width + h.fch1
+        tsamp = W.p0 / nbin
+        sd = np.atleast_1d(params.compute_dmdelays(freqs, delta, tsamp, h.fch1, in_samples=True)).astype(np.int64)
+        # float64 cross-check of the law itself (tolerance: float32 rounding of frequencies, DM and the products, plus the final round)
+        ref = SC_K * delta * (freqs ** -2 - h.fch1 ** -2) / tsamp
+        tol = 1.0 + 4e-6 * SC_K * abs(delta) * max(float(freqs.min()) ** -2, h.fch1 ** -2) / tsamp
+        err = float(np.max(np.abs(sd - ref))) if sd.shape == ref.shape else float("inf")
+        self.maxerr["dm"] = max(self.maxerr["dm"], (err - 0.5) / (tol - 0.5))
+        if not err <= tol:
+            self.fail("scale-dm-law", "sub-band shifts computed for this many sub-bands / this bin width are not the dispersion law evaluated in float64",
+                      dict(case, dm=d, max_abs_error_bins=err, tolerance_bins=tol))
+        return sd
+
+    def p_shifts(self, W, p, case):
+        ni, _nb, nbin = W.shape
+        db = dbins_of(W, p, W.p0, W.p0)
+        if db == 0:
+            return np.zeros(ni, dtype=np.int64)
+        sp = np.round(np.arange(ni, dtype=np.float32) / (ni / db)).astype(np.int32).astype(np.int64)
+        ref = np.arange(ni, dtype=np.float64) * db / ni
+        err = float(np.max(np.abs(sp - ref) - 2e-6 * np.abs(ref)))
+        self.maxerr["period"] = max(self.maxerr["period"], float(np.max((np.abs(sp - ref) - 0.5) / (0.5 + 2e-6 * np.abs(ref)))))
+        if not err <= 1.0:
+            self.fail("scale-period-law", "float32 sub-integration shifts are not the linear drift evaluated in float64",
+                      dict(case, period=p, dbins=db, max_excess_bins=err))
+        return sp
+
+    def total(self, W, d, p, case):
+        return self.dm_shifts(W, d, case)[None, :] + self.p_shifts(W, p, case)[:, None]
+
+    def state(self, W, c, d, p, case, key, what):
+        """is the cube what the property says it is at targets (d, p)?  reports under `key` and returns False if not"""
+        ok = True
+        if c.data.shape != W.shape or c.data.dtype != np.float32:
+            self.fail("scale-shape", "shape or dtype of the cube changed", dict(case, shape=list(c.data.shape), dtype=str(c.data.dtype)))
+            return False
+        tot = self.total(W, d, p, case)
+        exp = W.cube0 if not np.any(tot % W.shape[2]) else _sc_rot(W.cube0, tot)
+        if not _sc_biteq(c.data, exp):
+            ne = (np.ascontiguousarray(c.data).view(np.uint32) != exp.view(np.uint32)).any(axis=2)
+            i, b = (int(v) for v in np.argwhere(ne)[0])
+            extra = {"bad_profiles": int(ne.sum()), "profiles": int(ne.size), "first_bad_profile": [i, b], "expected_shift_there": int(tot[i, b]),
+                     "final_dm": d, "final_period": p}
+            for nm in ("_fph_shifts", "_tph_shifts"):
+                v = np.atleast_1d(getattr(c, nm, np.zeros(0)))
+                k = b if nm == "_fph_shifts" else i
+                extra[nm + "_there"] = int(v[k]) if k < v.size else None
+            a = np.sort(np.ascontiguousarray(c.data[i, b]).view(np.uint32))
+            extra["same_multiset_there"] = bool(np.array_equal(a, np.sort(W.cube0[i, b].view(np.uint32))))
+            self.fail(key, what, dict(case, **extra))
+            if not extra["same_multiset_there"]:
+                self.fail("scale-multiset", "a profile no longer holds the values it was folded with", dict(case, **extra))
+            ok = False
+        del exp
+        if c.dm != d:
+            self.fail("scale-reported-dm", "reported DM is not the last target", dict(case, got=c.dm, expected=d))
+            ok = False
+        if c.period != p:
+            self.fail("scale-reported-period", "reported period is not the last target", dict(case, got=c.period, expected=p))
+            ok = False
+        return ok
+
+    def history(self, W, ops, tag, every=1, extras=True, gen=None):
+        """apply `ops` to a fresh cube; compare with the restated law after every `every`-th update and at the end; then repeat the last
+        update and return to the folding values.  `gen` describes how a long history was generated (replay without listing it)"""
+        R = self.R
+        base = dict(W.describe(), history=tag)
+        if gen is None or len(ops) <= 16:
+            base["ops"] = [[k, v] for k, v in ops]
+        else:
+            base["ops"] = gen
+        d, p = finals(W, ops)
+        tot = self.total(W, d, p, base)
+        R.tick(base)
+        R.case(("scale", W.name, tag), nontrivial=bool(np.any(tot % W.shape[2])) or len(set(ops)) > 1, regime="scale")
+        simple = sum(k == "dm" for k, _ in ops) <= 1 and sum(k == "p" for k, _ in ops) <= 1
+        key = "scale-first-update" if simple else "scale-history"
+        c = W.fresh()
+        d, p = W.dm0, W.p0
+        good = True
+        for k, (kind, v) in enumerate(ops):
+            case = dict(base, at_op=k, op=[kind, v])
+            R.tick(case)
+            try:
+                (c.update_dm if kind == "dm" else c.update_period)(v)
+            except Exception as e:  # noqa: BLE001
+                self.fail("scale-exception", f"update #{k} of the history raised {type(e).__name__}: {str(e)[:100]}", case)
+                return False
+            if kind == "dm":
+                d = v
+            else:
+                p = v
+            if good and ((k + 1) % every == 0 or k + 1 == len(ops)):
+                good = self.state(W, c, d, p, case, key if k else "scale-first-update",
+                                  f"cube after update #{k} of the history is not the folded cube rotated by the shifts its DM and period imply")
+        if not (extras and ops and good):
+            return good
+        kind, v = ops[-1]
+        try:
+            case = dict(base, then=[[kind, v]])
+            R.tick(case)
+            (c.update_dm if kind == "dm" else c.update_period)(v)
+            good = self.state(W, c, d, p, case, "scale-repeat", "repeating the last update changed the cube")
+            case = dict(base, then=[[kind, v], ["dm", W.dm0], ["p", W.p0]])
+            R.tick(case)
+            c.update_dm(W.dm0)
+            c.update_period(W.p0)
+            good = self.state(W, c, W.dm0, W.p0, case, "scale-return-to-fold",
+                              "returning to the folding DM and period does not restore the folded cube") and good
+        except Exception as e:  # noqa: BLE001
+            self.fail("scale-exception", f"repeat / return after the history raised {type(e).__name__}: {str(e)[:100]}", case)
+            return False
+        return good
+
+    def delays(self, W, which, targets, tag):
+        """the delay bookkeeping alone (_get_dmdelays / _get_pdelays: what update_* rolls by) where rolling every profile is unaffordable:
+        the delays returned along a history must add up to the shift implied by the current target"""
+        from sigpyproc.foldedcube import FoldedData
+        R = self.R
+        ni, nb, nbin = W.shape
+        base = dict(W.describe(), history=tag, calls=[[which, v] for v in targets])
+        R.tick(base)
+        R.case(("scale", W.name, tag), regime="scale")
+        c = FoldedData(W.cube0, W.hdr, W.p0, W.dm0)
+        fn = getattr(c, "_get_dmdelays" if which == "dm" else "_get_pdelays", None)
+        if fn is None:
+            R.notes.append(f"scale: FoldedData has no {'_get_dmdelays' if which == 'dm' else '_get_pdelays'}; delay-only cases skipped")
+            return
+        n = nb if which == "dm" else ni
+        cum = np.zeros(n, dtype=np.int64)
+        for k, v in enumerate(targets):
+            case = dict(base, at_call=k)
+            R.tick(case)
+            try:
+                r = np.atleast_1d(fn(v))
+            except Exception as e:  # noqa: BLE001
+                self.fail("scale-exception", f"delay computation #{k} raised {type(e).__name__}: {str(e)[:100]}", case)
+                return
+            want = self.dm_shifts(W, v, case) if which == "dm" else self.p_shifts(W, v, case)
+            if r.shape != (n,) or r.dtype.kind not in "iu":
+                self.fail("scale-delays", "delays are not one integer per sub-band / sub-integration", dict(case, shape=list(r.shape), dtype=str(r.dtype)))
+                return
+            cum += r
+            bad = np.flatnonzero((cum - want) % nbin)
+            if bad.size:
+                j = int(bad[0])
+                self.fail("scale-delays", "delays returned along the history do not add up to the shift implied by the current target",
+                          dict(case, n_bad=int(bad.size), first_bad_index=j, accumulated=int(cum[j]), implied=int(want[j])))
+                return
+
+
+def _sc_history(W, seedseq, n, mode, dms, ps):
+    """random history of n updates from numpy.random.default_rng(seedseq).
+    mode 'alphabet': targets drawn from the alphabets dms / ps (_sc_targets);
+    mode 'fresh': a new target for almost every update (uniform in +-T turns, T drawn from 0.5 / 3 / 50 / the 2**16-bin scale), with
+    occasional exact repeats of the previous update and exact returns to the folding value"""
+    g = np.random.default_rng(seedseq)
+    du, pu = _sc_units(W.hdrp, W.shape, W.p0)
+    nbin = W.shape[2]
+    big = max(60.0, min(1.5 * 1.37 * (1 << 16) / nbin, SC_SHIFT_CAP / nbin / 2))
+    ops = []
+    for _ in range(n):
+        kind = "dm" if g.random() < 0.5 else "p"
+        u = g.random()
+        if mode == "alphabet":
+            v = dms[int(g.integers(0, len(dms)))] if kind == "dm" else ps[int(g.integers(0, len(ps)))]
+        elif u < 0.08 and ops:
+            kind, v = ops[-1]
+        elif u < 0.16:
+            v = W.dm0 if kind == "dm" else W.p0
+        else:
+            t = float(g.uniform(-1, 1)) * (0.5, 3.0, 50.0, big)[int(g.integers(0, 4))]
+            if kind == "dm":
+                v = W.dm0 + t * du
+                v = v if v >= 0 else W.dm0 - t * du
+            else:
+                v = W.p0 + t * pu
+                v = v if v >= W.p0 / 4 else W.p0 - t * pu
+        ops.append((kind, float(v)))
+    return ops
+
+
+def scale(R: vlib.Run):
+    """at-scale search: cubes of 2**16 .. 2**25 elements (profiles of up to 2**24+1 bins, up to 2**18+1 sub-integrations / sub-bands, delay
+    bookkeeping alone up to 2**24+5), shifts beyond 2**8 / 2**15 / 2**16 / 2**24 bins and many turns, histories of thousands of updates,
+    cube contents at the limits of float32, headers with > 2**31 samples and > 2**17 channels"""
+    import gc
+    S = ScaleOracle(R)
+    seed = int(R.seed)
+    hB = {"nchans": 64, "foff": -0.5, "fch1": 1500.0, "tsamp": 6.4e-5, "nsamples": 2000000}
+    hA = {"nchans": 32, "foff": -4.0, "fch1": 400.0, "tsamp": 2.0 ** -10, "nsamples": 102400}
+    hD = {"nchans": 16, "foff": 2.0, "fch1": 300.0, "tsamp": 2.56e-4, "nsamples": 400000}
+    hL = {"nchans": 4096, "foff": -400.0 / 4096, "fch1": 800.0, "tsamp": 1e-6, "nsamples": (1 << 32) + 12345}        # sample count beyond uint32
+    hM = {"nchans": 131074, "foff": -400.0 / 131074, "fch1": 1400.0, "tsamp": 6.4e-5, "nsamples": (1 << 31) + 7}     # > 2**17 channels
+    hN = {"nchans": 262145, "foff": 300.0 / 262145, "fch1": 1100.0, "tsamp": 2.56e-4, "nsamples": 3000000}          # ascending band
+    hdrs = [hB, hA, hD, hL]
+    p0s = [0.0334, 0.5, 0.1, 0.0016]
+    dm0s = [56.7, 10.0, 100.0, 250.0]
+    kinds = ["bits", "int", "extreme"]
+    wi = 0
+
+    def world(name, hp, shape, p0, dm0, kind):
+        nonlocal wi
+        wi += 1
+        du, _pu = _sc_units(hp, shape, p0)
+        return ScaleWorld(name, hp, shape, max(dm0, float(np.ceil(3 * du))), p0, kind, [seed, SC_SEED, wi])
+
+    def explicit(W, n_each, t24=True):
+        """a short history that visits the large shifts: n_each DM and n_each period targets in random order, one immediate repeat, one
+        return to the folding DM in the middle"""
+        g = np.random.default_rng([seed, SC_SEED, wi, 1])
+        dms, ps = _sc_targets(W, t24)
+        pick = lambda xs: [xs[1]] + [xs[int(j)] for j in (g.permutation(len(xs) - 2)[:n_each - 2] + 2)] + [xs[-2]]  # noqa: E731
+        ops = [("dm", v) for v in pick(dms)] + [("p", v) for v in pick(ps)]
+        ops = [ops[int(j)] for j in g.permutation(len(ops))]
+        j = int(g.integers(1, len(ops)))
+        ops.insert(j, ops[j - 1])
+        ops.insert(len(ops) // 2, ("dm", W.dm0))
+        return ops
+
+    # ---- 1. profiles of 2**14 .. 2**24 bins: cube sizes just below / at / above 2**16, 2**18, 2**20, 2**22, 2**24, 2**25 ----------
+    shapes = []
+    for e in (14, 16, 18, 20, 22):
+        shapes += [(2, 2, (1 << e) - 1), (2, 2, 1 << e), (2, 2, (1 << e) + 1)]
+    shapes += [(3, 5, 69905), (5, 3, 69906), (7, 3, 199729), (1, 2, (1 << 24) + 1), (2, 1, (1 << 24) + 1)]
+    for si, shape in enumerate(shapes):
+        size = int(np.prod(shape))
+        W = world(f"S{si}", hdrs[si % 4], shape, p0s[(si // 2) % 4], dm0s[si % 4], "bits" if size > (1 << 24) else kinds[si % 3])
+        n_each = 5 if size <= (1 << 22) else 4 if size <= (1 << 24) + 64 else 3
+        S.history(W, explicit(W, n_each), "explicit", every=1 if size <= (1 << 20) + 64 else 4)
+        del W
+        gc.collect()
+
+    # ---- 2. many profiles: more than 2**16 / 2**18 sub-integrations, sub-bands, profiles --------------------------------------------
+    for name, hp, shape, p0, n_each, extras in (("P0", hL, (65537, 1, 4), 0.0334, 3, True), ("P1", hM, (1, 65537, 4), 0.5, 3, True),
+                                                ("P2", hB, (200, 200, 8), 0.1, 2, True), ("P3", hL, ((1 << 18) + 1, 1, 2), 0.0016, 0, False),
+                                                ("P4", hN, (1, (1 << 18) + 1, 2), 0.0334, 0, False)):
+        W = world(name, hp, shape, p0, 30.0, "int")
+        if n_each:
+            ops = [o for o in explicit(W, n_each, t24=False) if (o[0] == "p" or shape[1] > 1) and (o[0] == "dm" or shape[0] > 1)]
+        else:                   # one update every profile of which moves, then straight back to the folding value
+            dms, ps = _sc_targets(W, t24=False)
+            ops = [("dm", dms[-2]), ("dm", W.dm0)] if shape[0] == 1 else [("p", ps[-2]), ("p", W.p0)]
+        S.history(W, ops, "explicit", every=1 if not extras else 2, extras=extras)
+        del W
+        gc.collect()
+
+    # ---- 3. long histories -------------------------------------------------------------------------------------------------------
+    for name, hp, shape, p0, kind, n, mode, every in (("L0", hB, (4, 8, 64), 0.0334, "int", 4000, "fresh", 1),
+                                                      ("L1", hA, (2, 3, 1000), 0.5, "extreme", 2500, "alphabet", 1),
+                                                      ("L2", hD, (64, 64, 256), 0.1, "bits", 60, "fresh", 5),
+                                                      ("L3", hL, (16, 16, 1024), 0.0016, "int", 300, "alphabet", 1),
+                                                      ("L4", hA, (1, 2, 4096), 1.337, "bits", 1000, "fresh", 1),
+                                                      ("L5", hD, (2, 1, 4096), 0.25, "extreme", 1000, "alphabet", 1)):
+        W = world(name, hp, shape, p0, 56.7, kind)
+        dms, ps = _sc_targets(W)
+        hs = [seed, SC_SEED, wi, 2]
+        ops = _sc_history(W, hs, n, mode, dms, ps)
+        S.history(W, ops, f"{mode}-{n}", every=every,
+                  gen=f"props/c17.py _sc_history(W, {hs}, {n}, {mode!r}, *_sc_targets(W)) -- {n} updates")
+        del W
+        gc.collect()
+
+    # ---- 4. the delay bookkeeping alone beyond 2**22 / 2**24 sub-bands and sub-integrations (no data is touched) ---------------------
+    for name, hp, shape, p0, which in (("D0", hL, ((1 << 24) + 5, 1, 1024), 0.0334, "p"), ("D1", hM, (1, (1 << 22) + 3, 1024), 0.5, "dm"),
+                                       ("D2", hN, (1, (1 << 24) + 5, 512), 0.1, "dm"), ("D3", hB, ((1 << 20) + 1, 1, 65536), 0.25, "p")):
+        wi += 1
+        du, _pu = _sc_units(hp, shape, p0)
+        W = ScaleWorld.__new__(ScaleWorld)
+        World.__init__(W, name, hp, (1, 1, 1), max(30.0, float(np.ceil(3 * du))), p0, [0.0], [], [])
+        W.shape, W.kind, W.seedseq = shape, "zeros", []
+        W.cube0 = np.broadcast_to(np.float32(0), shape)
+        W.describe = (lambda W=W: {"world": W.name, "header": W.hdrp, "shape": list(W.shape), "dm_fold": W.dm0, "period_fold": W.p0,
+                                   "cube0": "numpy.broadcast_to(numpy.float32(0), shape): only _get_dmdelays / _get_pdelays are called"})
+        dms, ps = _sc_targets(W)
+        xs = dms if which == "dm" else ps
+        S.delays(W, which, [xs[1], xs[-2], xs[-2], xs[0], xs[2], xs[-1]][:4 if shape[0] * shape[1] > (1 << 23) else 6], "delays-only")
+        del W
+        gc.collect()
+    R.extra_cov["scale_failures_by_key"] = dict(sorted(S.count.items()))
+    R.extra_cov["scale_law_crosscheck_slack_used"] = {k: round(v, 4) for k, v in S.maxerr.items()}
